@@ -114,9 +114,10 @@ Example C11_comment_rule_nonvacuous :
 Proof. repeat split; reflexivity. Qed.
 
 (* 7. the model's loops are one transducer over line classes (what the closure proof works on) *)
-Theorem C11_reader_is_transducer : forall w ls lineno bc bt cont hnc raw,
-  lift (rd_loop w ls lineno bc bt cont hnc raw)
-  = arun false (map (line_class w) ls) (mkA bc bt cont hnc (nonempty raw) (flat_map line_words raw)).
+Theorem C11_reader_is_transducer : forall w rc ls lineno bc bt cont hnc raw,
+  lift (rd_loop w rc ls lineno bc bt cont hnc raw)
+  = arun false (map (line_class w) ls)
+         (mkA bc bt cont hnc (nonempty raw) (flat_map line_words raw) (negb rc) false).
 Proof. exact rd_loop_sim. Qed.
 Print Assumptions C11_reader_is_transducer.
 
